@@ -92,6 +92,24 @@ def sph (nbrs : List (Nbr α)) : α := nbrs.foldl sphStep 0
 def splashStep (acc : α) (nb : Nbr α) : α := acc + (nb.m / nb.rho) * nb.w * nb.f
 def splash (nbrs : List (Nbr α)) : α := nbrs.foldl splashStep 0
 
+/-! ### user-supplied equations that read array CONSTANTS
+
+`Interpolator(..., equations=[...])` and `SPHEvaluator(arrays, equations, ...)`
+run whatever equations the caller hands over.  The probe equations of
+harness/c14.py (`RefDensitySum`, `RefDensitySumGain`) are the SPH sum with the
+reference density `rho0` -- a CONSTANT of the source array (`pa.add_constant`),
+read as `s_rho0[0]` -- in place of the per-particle density, times a constant
+`gain` of the destination array (`d_gain[0]`; `1` for the Interpolator, whose
+target array has no constants):
+
+    d_prop[d_idx] += d_gain[0]*s_m[s_idx]/s_rho0[0]*WIJ*s_temp_prop[s_idx]
+
+The `rho` of a neighbour record carries `s_rho0[0]` of the neighbour's array. -/
+
+def sphConstStep (gain : α) (acc : α) (nb : Nbr α) : α :=
+  acc + gain * nb.m / nb.rho * nb.w * nb.f
+def sphConst (gain : α) (nbrs : List (Nbr α)) : α := nbrs.foldl (sphConstStep gain) 0
+
 /-! ### splash_norm : `SPLASHInterpolatePropertyNormalized` -/
 
 /-- `common = (m/rho)*WJ; d_unity += common; d_prop += common*s_temp_prop` -/
@@ -226,6 +244,11 @@ structure IState where
   nnps : NnpsState
   /-- arrays the compiled evaluator reads (`c_acceleration_eval.<name>.array`) -/
   evalObjs : List Nat
+  /-- arrays whose CONSTANTS the compiled evaluator reads: the generated loops
+  take `s_<const>`/`d_<const>` from carray attributes of the same
+  `ParticleArrayWrapper`, which `set_array(pa)` binds next to the property
+  carrays (`for prop in pa.constants.keys(): setattr(self, prop, pa.get_carray(prop))`) -/
+  evalConsts : List Nat
   /-- `func_eval.nnps` is `self.nnps` -/
   evalNnpsCurrent : Bool
   /-- current version of every object (environment) -/
@@ -250,6 +273,13 @@ current particles), then `func_eval.set_nnps` -/
 def createNnps (s : IState) (objs : List Nat) : IState :=
   { s with nnps := { objs := objs, seen := objs.map s.ver }, evalNnpsCurrent := true }
 
+/-- `AccelerationEval.update_particle_arrays(arrays)` (acceleration_eval.py ->
+acceleration_eval_cython.mako): `for pa in particle_arrays: getattr(self, pa.name).set_array(pa)`;
+`ParticleArrayWrapper.set_array(pa)` sets `self.array = pa` and re-binds the
+carray of every property and of every constant of `pa` -/
+def setArrays (s : IState) (objs : List Nat) : IState :=
+  { s with evalObjs := objs, evalConsts := objs }
+
 /-- `update_particle_arrays(particle_arrays)`:
 `_set_particle_arrays; arrays = self.particle_arrays + [self.pa];
 _create_nnps(arrays); func_eval.update_particle_arrays(arrays)` -/
@@ -257,7 +287,7 @@ def updateParticleArrays (s : IState) (arrays : List Nat) : IState :=
   let s1 := { s with arrays := arrays }
   let objs := s1.arrays ++ [s1.pts]
   let s2 := createNnps s1 objs
-  { s2 with evalObjs := objs }
+  setArrays s2 objs
 
 /-- `set_interpolation_points`: `self.pa = _create_particle_array(...)`
 (`func_eval` exists already), then `update_particle_arrays(self.particle_arrays)` -/
@@ -272,7 +302,7 @@ def updateOp (s : IState) : IState :=
 /-- `SPHEvaluator.update_particle_arrays(arrays)`:
 `_create_nnps(arrays); func_eval.update_particle_arrays(arrays)` -/
 def evalUpdateParticleArrays (s : IState) (objs : List Nat) : IState :=
-  { createNnps s objs with evalObjs := objs }
+  setArrays (createNnps s objs) objs
 
 def bump (ver : Nat → Nat) (o : Nat) : Nat → Nat :=
   fun x => if x = o then ver x + 1 else ver x
@@ -289,17 +319,18 @@ def step (s : IState) : Op → IState
 `arrays + [pa]` -/
 def init (arrays : List Nat) (p : Nat) : IState :=
   setInterpolationPoints
-    { arrays := arrays, pts := p, nnps := ⟨[], []⟩, evalObjs := [],
+    { arrays := arrays, pts := p, nnps := ⟨[], []⟩, evalObjs := [], evalConsts := [],
       evalNnpsCurrent := false, ver := fun _ => 0 } p
 
 /-- `SPHEvaluator.__init__(arrays, equations, …)`: the evaluator is compiled over
-`arrays`, then `_create_nnps(arrays)`.  (`self.arrays` is not used afterwards;
+`arrays` (one `ParticleArrayWrapper(pa, index)` per array, whose `__init__` calls
+`set_array(pa)`), then `_create_nnps(arrays)`.  (`self.arrays` is not used afterwards;
 `arrays`/`pts` of the state are the source arrays / destination by convention:
 the destination is the last array.) -/
 def initEval (objs : List Nat) : IState :=
   createNnps
     { arrays := objs.dropLast, pts := objs.getLastD 0, nnps := ⟨[], []⟩, evalObjs := objs,
-      evalNnpsCurrent := false, ver := fun _ => 0 } objs
+      evalConsts := objs, evalNnpsCurrent := false, ver := fun _ => 0 } objs
 
 def run (s : IState) (ops : List Op) : IState := ops.foldl step s
 
@@ -313,12 +344,20 @@ structure Reads where
   binned : List Nat
   result : Nat
   neighboursCurrent : Bool
+  /-- the objects whose constants the evaluator reads -/
+  constants : List Nat
   deriving DecidableEq, Repr
 
 def interpolateReads (s : IState) : Reads :=
   { filled := s.arrays, evaluated := s.evalObjs, binned := s.nnps.objs,
     result := s.pts,
-    neighboursCurrent := s.evalNnpsCurrent && decide (s.nnps.seen = s.nnps.objs.map s.ver) }
+    neighboursCurrent := s.evalNnpsCurrent && decide (s.nnps.seen = s.nnps.objs.map s.ver),
+    constants := s.evalConsts }
+
+/-- the value of a constant as the compiled loop of the `k`-th array name reads
+it: from the carray the wrapper holds (`cval o` = the value stored in object `o`) -/
+def constRead {γ : Type} (s : IState) (cval : Nat → γ) (k : Nat) : Option γ :=
+  (s.evalConsts[k]?).map cval
 
 /-! ### Staging: what `interpolate(prop)` writes into `temp_prop`
 
@@ -507,5 +546,77 @@ def allIndices (sh : List Nat) : List (List Nat) :=
   (List.range (size sh)).map (unravel sh)
 
 end
+
+/-! ### The target particles' smoothing length and the dtype of the caller's arrays
+
+`_create_particle_array(x, y, z)` (interpolator.py):
+
+    xr = x.ravel(); yr = y.ravel(); zr = z.ravel()
+    hmax = self._get_max_h_in_arrays()
+    h = hmax*np.ones_like(xr)
+    pa = get_particle_array(name='interpolate', x=xr, y=yr, z=zr, h=h, ...)
+
+    def _get_max_h_in_arrays(self):
+        hmax = -1.0
+        for array in self.particle_arrays:
+            hmax = max(array.h.max(), hmax)
+        return hmax
+
+`x` is `np.asarray(<what the caller passed>)`: its dtype `β` is the caller's
+(float64, float32, int64, int32: `np.mgrid[1:6, 1:6]`, `np.arange(n)`, a list of
+Python ints).  `np.ones_like(xr)` is an array of ones OF THAT DTYPE; the product
+with the float64 scalar `hmax` is a float64 array (numpy promotes float64 with
+every integer and smaller float dtype to float64): entry `hmax * float64(1)`.
+`get_particle_array` stores every property as double: the coordinates are
+converted, `cast : β → α` below (exact for the four dtypes).  `array.h` is the
+array's view of its real particles (`only_real_particles=True`). -/
+
+section TargetH
+variable {α : Type} [LT α] [DecidableLT α]
+
+/-- one step of `ndarray.max()` -/
+def maxStep (acc x : α) : α := if acc < x then x else acc
+
+/-- `array.h.max()`; `none`: numpy raises ValueError on an empty array -/
+def npMax : List α → Option α
+  | [] => none
+  | x :: xs => some (xs.foldl maxStep x)
+
+/-- Python's `max(a, b)`: `b` only if `b > a` -/
+def pyMax (a b : α) : α := if a < b then b else a
+
+/-- the loop of `_get_max_h_in_arrays`: `hmax = max(array.h.max(), hmax)` per array -/
+def maxHLoop : List (List α) → α → Option α
+  | [], hmax => some hmax
+  | h :: rest, hmax =>
+    match npMax h with
+    | none => none
+    | some m => maxHLoop rest (pyMax m hmax)
+
+/-- `_get_max_h_in_arrays()` over the real-particle `h` of every source array -/
+def maxHInArrays [Neg α] [OfNat α 1] (hs : List (List α)) : Option α := maxHLoop hs (-1)
+
+/-- `np.ones_like(xr)`: ones of the dtype of `xr` -/
+def onesLike {β : Type} [OfNat β 1] (xr : List β) : List β := xr.map (fun _ => 1)
+
+/-- `hmax*ones`: float64 scalar times an array of dtype `β`, promoted entry by entry -/
+def scalarTimes {β : Type} [Mul α] (cast : β → α) (hmax : α) (ones : List β) : List α :=
+  ones.map (fun o => hmax * cast o)
+
+/-- the `h` of the target particles made from the raveled coordinate array `xr` -/
+def targetH {β : Type} [OfNat β 1] [Mul α] (cast : β → α) (hmax : α) (xr : List β) : List α :=
+  scalarTimes cast hmax (onesLike xr)
+
+/-- `_create_particle_array`'s `h`, from the sources' real-particle `h` lists -/
+def createTargetH {β : Type} [OfNat β 1] [Mul α] [Neg α] [OfNat α 1] (cast : β → α)
+    (hs : List (List α)) (xr : List β) : Option (List α) :=
+  (maxHInArrays hs).map (fun hmax => targetH cast hmax xr)
+
+end TargetH
+
+/-- the double coordinates of the target particles made from a coordinate array
+of dtype `β`: `get_particle_array(x=x.ravel())` converts to double -/
+def castRavel {α β : Type} [OfNat β 0] (cast : β → α) (v : NdView β) : List α :=
+  (ravelC v).map cast
 
 end PysphVerif.Interp
